@@ -4,7 +4,11 @@
 
 package module
 
-//@ property C11
+//@ property C11 C10
+// Ghost view of "the" transaction iterator of the function under verification: it_pos counts the
+// successful Next() steps, it_done records that the last Has() answered false.
+//@ smt all (declare-ghost it_pos Int)
+//@ smt all (declare-ghost it_done Bool)
 // Iteration over a transaction list does not touch the state the verified functions talk about.
 //@ func (l TransactionList) Iterator() (it)
 //@   iface
@@ -15,10 +19,12 @@ package module
 //@   iface
 //@   trusted
 //@   pure
+//@   opt ghost:it_done !r
 //@ func (it TransactionIterator) Next() (err)
 //@   iface
 //@   trusted
 //@   pure
+//@   opt ghost:it_pos ghost(it_pos) + 1
 //@ func (it TransactionIterator) Get() (tx, idx, err)
 //@   iface
 //@   trusted
